@@ -130,7 +130,49 @@ def codec(chk, repo, f):
     return not bad
 
 
+def wrappers(chk, repo):
+    """Terminal.read / Terminal.write hand their formats, values and raw
+    data to EtherCat.roundtrip as they got them (FPRD / FPWR to their own
+    position): by abstract execution with a recording roundtrip"""
+    tc = repo.cls("ebpfcat.ethercat.Terminal")
+    bad = []
+    n = 0
+    for meth, cmd in (("read", "FPRD"), ("write", "FPWR")):
+        f = tc.methods.get(meth)
+        if f is None:
+            continue
+        chk.analysed(tc.qualname + "." + meth)
+        for args, kw in ((("H",), {}), (("H", 44), {}), (("H", 7, "I", 9), {}),
+                         (("HB", 1, 2, "4s"), {}), ((), {"data": 5}),
+                         (("H", 3), {"data": b"xy"}), (("B", 0, "H"),
+                                                       {"data": 0})):
+            n += 1
+            log = []
+
+            def rt(c, pos, off, *a, _l=log, **k):
+                _l.append((getattr(c, "name", c), pos, off, a, k))
+                return ("result",)
+            me = Obj(tc, {"position": 9, "ec": Obj(None, {
+                "roundtrip": ("hook", rt)})})
+            try:
+                r = Evaluator(repo, f._module, tc).call_function(
+                    f, [me, 0x1000] + list(args), dict(kw), cls=tc)
+            except (Unknown, Raised) as e:
+                raise AnalysisError(f"{tc.qualname}.{meth}: cannot be "
+                                    f"evaluated: {e}")
+            want = [(cmd, 9, 0x1000, tuple(args), dict(kw))]
+            if log != want or r != ("result",):
+                bad.append(f"{meth}(0x1000, {args}, {kw}) -> roundtrip"
+                           f"{log[0][3:] if log else log}")
+    chk.ob("R13.7", tc.qualname, f"read / write forward formats, values and "
+           f"data unchanged to roundtrip ({n} calls by abstract execution)",
+           not bad, tc.methods.get("read") or tc.node, "; ".join(bad[:2]) or
+           "FPRD / FPWR at the terminal's position")
+
+
 def run(chk, repo):
+    chk.doc("R13.7", "the terminal-level wrappers are transparent")
+    wrappers(chk, repo)
     chk.doc("R13.1", "prefix discipline of all formats in roundtrip")
     chk.doc("R13.2", "no negated-length slice bound; head/tail split from "
                      "the front")
